@@ -3510,3 +3510,109 @@ mutant('C11-exact-penetrance-not-given-to-workers', 'C11',
          "                    'exact_penetrance': exact_penetrance,\n",
          "                    'tmp_path': tmp_path,\n")],
        'R-FWD/parameter-forwarded', 'exact_penetrance')
+
+# ======================================================================
+# rules added after the seventh seeding round
+# ======================================================================
+_UU = P+'utils/utils.py'
+_C2C = P+'utils/csc_to_csr.py'
+_DRU = P+'taxonomy/data_release_utils.py'
+mutant('C16-width-from-floor-of-extremes', 'C16',
+       'integer type chosen from the floor of the extremes',
+       [(_UU, "    int_min = np.round(x_minmax[0])\n    int_max = np.round(x_minmax[1])\n",
+         "    int_min = np.floor(x_minmax[0])\n    int_max = np.floor(x_minmax[1])\n")],
+       'R-ARITH/int-width', 'rounding')
+mutant('C16-width-max-against-min-bound', 'C16',
+       'maximum compared with the magnitude of the type\'s minimum',
+       [(_UU, "        if int_min >= this_info.min and int_max <= this_info.max:\n",
+         "        if int_min >= this_info.min and int_max <= -this_info.min:\n")],
+       'R-ARITH/int-width', 'bounds')
+twin('C16-twin-width-bounds-reordered', 'C16',
+     'bounds test written the other way round',
+     [(_UU, "        if int_min >= this_info.min and int_max <= this_info.max:\n",
+       "        if this_info.max >= int_max and this_info.min <= int_min:\n")])
+mutant('C14-return-in-finally-of-reference-stats', 'C14',
+       'a return inside the finally block of the marker stage',
+       [(P+'diff_exp/p_value_markers.py',
+         "    finally:\n        _clean_up(tmp_dir)\n",
+         "    finally:\n        _clean_up(tmp_dir)\n        return None\n")],
+       'R-IDIOM/jump-in-finally', 'find_markers_for_all_taxonomy_pairs_from_p_mask')
+mutant('C02-factor-rounded-up-on-small-nodes', 'C02',
+       'bootstrap factor replaced by 1.0 at nodes with few markers',
+       [(_EL, "    t = time.time()\n    (result,\n     bootstrapping_probability,\n",
+         "    if query_data['query_data'].n_genes < 5:\n"
+         "        bootstrap_factor = 1.0\n"
+         "    t = time.time()\n    (result,\n     bootstrapping_probability,\n")],
+       'R-FWD/setting-not-rebound', 'bootstrap_factor')
+twin('C02-twin-iteration-count-cast', 'C02',
+     'iteration count normalised to int',
+     [(_EL, "    t = time.time()\n    (result,\n     bootstrapping_probability,\n",
+       "    bootstrap_iteration = int(bootstrap_iteration)\n"
+       "    t = time.time()\n    (result,\n     bootstrapping_probability,\n")])
+mutant('C13-piece-copied-in-blocks-cursor-not-advanced', 'C13',
+       'dense pieces copied in blocks onto the same rows',
+       [(_AU, "                dst_data[data0:data0+n_data] = src['data'][()]\n"
+         "                dst_indices[data0:data0+n_data] = src['indices'][()]\n",
+         "                for b0 in range(0, n_data, 500000):\n"
+         "                    b1 = min(n_data, b0+500000)\n"
+         "                    dst_data[data0:data0+(b1-b0)] = src['data'][b0:b1]\n"
+         "                    dst_indices[data0:data0+(b1-b0)] = src['indices'][b0:b1]\n")],
+       'R-CURSOR/store-advances', 'amalgamate_csr_to_x')
+twin('C13-twin-piece-copied-in-blocks', 'C13',
+     'pieces copied in blocks, destination moving with the block',
+     [(_AU, "                dst_data[data0:data0+n_data] = src['data'][()]\n"
+       "                dst_indices[data0:data0+n_data] = src['indices'][()]\n",
+       "                for b0 in range(0, n_data, 500000):\n"
+       "                    b1 = min(n_data, b0+500000)\n"
+       "                    dst_data[data0+b0:data0+b1] = src['data'][b0:b1]\n"
+       "                    dst_indices[data0+b0:data0+b1] = src['indices'][b0:b1]\n")])
+twin('C05-twin-read-buffer-sliced', 'C05',
+     'index pass reads into a re-used buffer and uses the filled part',
+     [(_C2C, "    for i0 in range(0, n_indices, load_chunk_size):\n"
+       "        i1 = min(n_indices, i0+load_chunk_size)\n"
+       "        chunk = indices_handle[i0:i1]\n",
+       "    read_buffer = np.zeros(min(n_indices, load_chunk_size),\n"
+       "                           dtype=indices_handle.dtype)\n"
+       "    for i0 in range(0, n_indices, load_chunk_size):\n"
+       "        i1 = min(n_indices, i0+load_chunk_size)\n"
+       "        indices_handle.read_direct(\n"
+       "            read_buffer, source_sel=np.s_[i0:i1],\n"
+       "            dest_sel=np.s_[0:i1-i0])\n"
+       "        chunk = read_buffer[:i1-i0]\n")])
+mutant('C10-release-cells-checked-against-seen-per-cluster', 'C10',
+       'repeated cells detected per cluster only',
+       [(_DRU, "            if cell in result:\n"
+         "                raise RuntimeError(\n"
+         "                    f\"cell {cell} listed more than once in {csv_path}\")\n"
+         "            result[cell] = cluster\n",
+         "            if result.get(cell) == cluster:\n"
+         "                raise RuntimeError(\n"
+         "                    f\"cell {cell} listed more than once in {csv_path}\")\n"
+         "            result[cell] = cluster\n")],
+       'R-GUARD/unique-insert', 'get_cell_to_cluster_alias')
+twin('C10-twin-release-cells-guard-clause', 'C10',
+     'repeated-cell test written as a guard clause on a local',
+     [(_DRU, "            if cell in result:\n"
+       "                raise RuntimeError(\n"
+       "                    f\"cell {cell} listed more than once in {csv_path}\")\n"
+       "            result[cell] = cluster\n",
+       "            fresh = cell not in result\n"
+       "            if not fresh:\n"
+       "                raise RuntimeError(\n"
+       "                    f\"cell {cell} listed more than once in {csv_path}\")\n"
+       "            result[cell] = cluster\n")])
+mutant('C11-p-mask-worker-skips-pairs-without-valid-genes', 'C11',
+       'mask-route worker records nothing for a pair without valid genes',
+       [(_PMK, "        up_reg_lookup[idx] = np.where(\n"
+         "            np.logical_and(validity_mask, up_mask))[0]\n",
+         "        if not validity_mask.any():\n            continue\n"
+         "        up_reg_lookup[idx] = np.where(\n"
+         "            np.logical_and(validity_mask, up_mask))[0]\n")],
+       'R-COVER/every-pair-recorded', '_find_markers_from_p_mask_worker')
+mutant('C19-mask-file-appended-not-created', 'C19',
+       'marker scratch file opened for appending by its first writer',
+       [(_MK, "    with h5py.File(output_path, 'w') as out_file:\n"
+         "        out_file.create_dataset(\n            'gene_names',\n",
+         "    with h5py.File(output_path, 'a') as out_file:\n"
+         "        out_file.create_dataset(\n            'gene_names',\n")],
+       'R-FRESH/output-created-afresh', 'PValueRunner')
